@@ -142,6 +142,8 @@ pub fn main(args: &[String]) -> i32 {
     let stride: usize = args[5].parse().unwrap();
     let root = sandbox.join(format!("w{k}"));
     let cwd = root.join("c");
+    // the directory the type `HighExisting` would land in if `/..` were taken for `/`
+    let _ = std::fs::create_dir_all("/dev/shm/verif-toohigh");
     let rd = BufReader::new(std::fs::File::open(&args[1]).expect("histories"));
     let mut wr = BufWriter::new(std::fs::File::create(&args[2]).expect("out"));
     let mut blobs: BTreeMap<String, String> = BTreeMap::new();
@@ -191,6 +193,9 @@ pub fn main(args: &[String]) -> i32 {
     wr.flush().unwrap();
     std::env::set_current_dir("/").unwrap();
     let _ = std::fs::remove_dir_all(&root);
+    if k == 0 {
+        let _ = std::fs::remove_dir_all("/dev/shm/verif-toohigh");
+    }
     std::fs::write(&args[3], serde_json::to_string(&blobs).unwrap()).unwrap();
     0
 }
